@@ -6,12 +6,71 @@ ROOT = Path(__file__).resolve().parent.parent
 sys.path.insert(0, str(ROOT))
 
 # pid -> (category, technique, level text, level note, design ref)
-CHECKS = {
- "C16": ("exploration", "runtime monitoring: recorder on the differentiated function (every evaluated point) + closed-form gradient/derivative-bound oracle over generated and directed cases",
-         "Held on the executions produced: thousands of generated (approximator, function, point, step, subset, design space, serial/parallel) cases and discipline-level linearize/check_jacobian cases are run on the real approximators; each returned Jacobian is judged against the closed-form gradient within the method's theoretical error bound and every evaluated point against the upper bounds.",
-         "Trusts the harness closed forms (polynomial / exp-sin) and their derivative bounds; steps limited to a numerically safe range; says nothing about functions or steps outside the generated families.",
-         "DESIGN.md section 3, C16"),
+T = "runtime monitoring: "
+ENABLED = ["C02", "C13", "C16", "C19"]
+ALL = {
+ "C01": ("exploration", T + "recorders on the user callables + database snapshots after every request, judged by an independent normalisation reference over generated request histories",
+         "Held on the executions produced: generated design spaces x functions x preprocessing configurations x request histories are run on the real OptimizationProblem; every returned value/Jacobian, every database snapshot and every call of the user callables is judged (faithfulness, physical-space recording, memoisation, conservation).",
+         "Trusts the harness closed forms and the reference affine normalisation; only generated function families and histories are explored."),
+ "C02": ("exploration", T + "lock-step reference model (RefSpace) + icontract cache-coherence invariant on the real DesignSpace over generated edit/query histories",
+         "Held on the executions produced: tens of thousands of generated edit histories interleaved with cache-filling queries run on the real DesignSpace; after every step all views are compared with an independent ordered-list model and a private-state cache-coherence invariant is evaluated.",
+         "Trusts the reference model; invalid inputs (ub<lb, out-of-bound values) are outside the workload."),
+ "C03": ("exploration", T + "recorders on objective/constraint callables, new-iteration listener log and database census around every driver execution over the algorithm x budget x problem x setting product",
+         "Held on the executions produced: every offline-runnable optimisation and DOE algorithm is executed with small budgets on generated problems under each stop cause; entries created, distinct points evaluated and the returned result are judged.",
+         "Per-run wall-clock watchdog (inconclusive for that case); algorithms needing unavailable libraries are skipped and listed."),
+ "C04": ("exploration", T + "independent optimum-selection reference judged against the reported optimum/result over an exhaustive pattern enumeration of small histories plus generated histories",
+         "Held on the executions produced, with the 2-point x (objective + 2 constraints) x 6-state pattern space enumerated completely in the thorough tier; generated histories with ties, NaN, missing values, min/max, vector constraints and multi-objective Pareto fronts.",
+         "Trusts the reference rule written from the property statement; partially evaluated histories are judged only as far as the statement defines them."),
+ "C05": ("exploration", T + "uncached twin + run counters + structural invariant of full caches + open-HDF5-handle census over generated execute/linearize histories for every cache policy",
+         "Held on the executions produced: generated call histories (repeats, near-duplicates, in-place edited inputs, growing differentiated sets, re-opened files) on the real caches; outputs/Jacobians equal the uncached twin's, body runs at most once per distinct input.",
+         "Trusts the twin discipline; tolerance-based matching judged against the documented metric."),
+ "C06": ("exploration", T + "harness residual (re-execution of fresh twin disciplines on the returned data) and exact coupled solution over generated contractive systems x MDA classes x settings",
+         "Held on the executions produced: every MDA class and composition is run on generated contractive linear/tanh systems with known exact solution; the returned data must be a fixed point within the requested tolerance and agree across algorithms, orders, acceleration, relaxation, scaling and warm start.",
+         "Bounded progress instead of liveness (max_mda_iter); algorithm/system pairs without convergence guarantee can only be held or inconclusive."),
+ "C07": ("exploration", T + "closed-form implicit-function reference compared with MDA.linearize over generated systems x modes x matrix types x solvers x requested subsets x request sequences",
+         "Held on the executions produced: total derivatives returned by the real JacobianAssembly are compared block by block with (I-dG/dy)^-1 dG/dx built from the harness partials, for every mode/representation/solver/subset combination generated.",
+         "Well-conditioned systems only (cond<=1e3); tolerance 1e-7 relative."),
+ "C08": ("exploration", T + "independent SCC/reachability reference judged against CouplingStructure/DependencyGraph outputs, exhaustive over all digraphs on <=3 (quick) / <=4 (thorough) nodes, plus execution equivalence",
+         "Held on the executions produced, exhaustive over all small dependency graphs (all self-loop subsets and listing orders); random larger graphs; chain / MDA-chain outputs compared with a monolithic evaluation.",
+         "Trusts the harness Tarjan/reachability implementation (cross-checked against brute force)."),
+ "C09": ("exploration", T + "forward-accumulation reference along the executed dataflow compared with process.linearize over generated acyclic compositions x request sequences",
+         "Held on the executions produced: chains, parallel chains, additive chains, MDA chains and nestings of generated disciplines are linearized for sequences of requested subsets; every returned block is compared with the exact chain rule, including explicit zero blocks.",
+         "Sampled points only ('for every real input' is approximated)."),
+ "C10": ("exploration", T + "independent expression-tree evaluator (value, Jacobian) compared with the composed MDOFunction objects over generated trees and helper constructions",
+         "Held on the executions produced: generated expression trees and every helper named in the property are evaluated and differentiated at several points and compared with textbook rules; operands' arrays are checked for mutation; smooth-max bounds checked.",
+         "Sampled points only; tolerance 1e-11 relative."),
+ "C11": ("exploration", T + "state-machine workload over Database store/export/reload with a deep equality oracle and an open-HDF5-handle census; round trips of design spaces, problems and caches",
+         "Held on the executions produced: generated store/export histories (append after any interleaving of new points and new outputs) reload to the same content as a single export; design-space, problem and cache files reload equal.",
+         "Equality after documented representation normalisation (atleast_1d float)."),
+ "C12": ("fault_enumeration", T + "process death injected inside the k-th discipline execution for every k of the run (child processes), side log + backup file + restarted run judged offline (prefix, no rework, same history)",
+         "Held on the executions produced: every crash point of the reference runs is enumerated in the thorough tier for MDO and DOE scenarios with both backup granularities and pre-filled files; the backup must load, be the exact prefix, hold no open handle, and the restart must not re-execute stored points.",
+         "Crashes only during discipline executions (as the property states), not inside an HDF5 write."),
+ "C13": ("fault_enumeration", T + "forced completion orders with gated workers (threads and forked processes), exhaustive over all orders the pool allows for small task counts x failing subsets; yield injection via sys.monitoring on cache/lock code; offline check of the callback log",
+         "Held on the executions produced: all feasible completion orders for n<=4 (quick) / n<=6 (thorough) thread tasks and n<=3/4 process tasks x worker counts x failing subsets are forced on the real CallableParallelExecution and judged (positional results, exactly-once callbacks, isolated failures); parallel DOE/chains/FD/linearization equal their sequential twins; shared caches keep their invariants under injected yields.",
+         "fork start method only; thread interleavings under injected yields are sampled, not enumerated."),
+ "C14": ("exploration", T + "oracle on generated samples (bounds, integrality, column order, documented count, determinism, unit-to-physical image) over every DOE algorithm x space x setting",
+         "Held on the executions produced: every DOE algorithm of the factory is called on generated bounded mixed-type spaces with several sample counts and seeds; samples are judged against an independent unnormalisation and the documented counts.",
+         "Documented counts transcribed from the settings documentation."),
+ "C15": ("exploration", T + "lock-step dictionary model + icontract well-formedness invariant + reference JSON-schema validator over generated grammar edit histories",
+         "Held on the executions produced: generated edit histories on JSON, simple (and pydantic) grammars are mirrored by a dictionary model; names/required/defaults and validation verdicts on data batteries must agree after every step, and JSON grammars must agree with jsonschema.",
+         "Subtype corners the two grammar kinds cannot both express are observations only."),
+ "C16": ("exploration", T + "recorder on the differentiated function (every evaluated point) + closed-form gradient/derivative-bound oracle over generated and directed cases",
+         "Held on the executions produced: thousands of generated (approximator, function, point, step, subset, design space, serial/parallel) cases and discipline-level linearize/check_jacobian cases are run on the real approximators; each Jacobian is judged against the closed-form gradient within the method's theoretical error bound and every evaluated point against the upper bounds.",
+         "Trusts the harness closed forms and derivative bounds; steps limited to a numerically safe range."),
+ "C17": ("exploration", T + "exact coupled solution and implicit-function reference compared with MDF/IDF/DisciplinaryOpt problem functions over generated systems; short optimisations",
+         "Held on the executions produced: for generated coupled systems the real formulations' objective, constraints, derivatives and design spaces are compared across MDF, IDF (at consistent couplings) and DisciplinaryOpt, and small convex optimisations reach the same optimum.",
+         "Optimisation runs that stop on their budget are inconclusive for that clause only."),
+ "C18": ("exploration", T + "Richardson-extrapolated differences of the model's own prediction compared with predict_jacobian; interpolation, transformer round-trip and surrogate-discipline oracles over regressor x transformer configurations",
+         "Held on the executions produced: every regressor exposing Jacobians is fitted on generated learning sets with each transformer pipeline; the predicted Jacobian is compared with the derivative of the model's own prediction.",
+         "Query points kept away from learning points for non-smooth kernels; tolerance 1e-6."),
+ "C19": ("exploration", T + "closed-form laws (math/numpy/scipy.special only) compared with SP/OT distributions, parameter-space maps and seeded-sample statistics with >=7-sigma thresholds",
+         "Held on the executions produced: every distribution family with admissible random parameters is judged on CDF/quantile inverse relations, moments, support, range and samples; SP and OT versions are compared; parameter-space transforms are judged against the laws.",
+         "Statistical clauses are deterministic given the seed (DKW band, failure probability <1e-11)."),
+ "C20": ("exploration", T + "behavioural twin comparison of original vs restored objects + identity walk for shared mutable state over classes x life moments x protocols",
+         "Held on the executions produced: every constructible discipline/process/function/space/problem class is pickled at several life moments with three protocols; the restored object must expose the same grammars/settings, return the same outputs/Jacobians/results, share no in-memory mutable state and carry counters as values.",
+         "Classes needing external tools are skipped and listed in the evidence."),
 }
+CHECKS = {k: ALL[k] + (f"DESIGN.md section 3, {k}",) for k in ENABLED}
 NOT_YET = {}
 
 def main():
@@ -33,7 +92,7 @@ def main():
             "level_note": note,
             "technique": tech,
         })
-    na = [{"property_id": p["id"], "reason": NOT_YET.get(p["id"], "check not built yet (work in progress); nothing is claimed for this property")}
+    na = [{"property_id": p["id"], "reason": NOT_YET.get(p["id"], "check still being built and validated; nothing is claimed for this property yet")}
           for p in props if p["id"] not in CHECKS]
     hooks_commits = []
     man = {
